@@ -23,7 +23,7 @@ NAMES = ["x", "_", "__", "x1", "1x", "123", "self", "point", "kwargs", "variable
 def gen_cases(rng, tier: str) -> list[dict]:
     cases = []
     for origin, e in common.expr_stream(rng, tier, common.sizes(tier, 150, 2000), depth_q=4, depth_t=6,
-                                        names=("x", "y", "z"), share=0.2):
+                                        names=("x", "y", "z"), share=0.2, max_size=150):
         vs = common.names_of(e)
         g = gen.Gen(rng)
         full = g.point(vs)
